@@ -250,7 +250,8 @@ fn with_subs(rng: &mut Rng, mut agg: Value, depth: usize, risky: bool) -> Value 
   agg
 }
 
-/// `risky`: parameters known to trigger the per-segment threshold defects may be generated
+/// `risky`: the one request class of the still open finding (date_histogram with calendar
+/// interval + offset + bounds) may be generated; everything else is generated always
 pub fn gen_agg(rng: &mut Rng, depth: usize, risky: bool) -> Value {
   // leaves are more likely deeper in the tree
   let leaf = depth >= 3 || rng.chance(if depth == 1 { 2 } else { 5 }, 10);
@@ -295,15 +296,15 @@ pub fn gen_agg(rng: &mut Rng, depth: usize, risky: bool) -> Value {
         json!({"type": "percentile_ranks", "field": f, "values": ts, "missing": num_missing(rng, f)})
       }
       _ => {
-        // top_hits sorted by numeric fields (ties: index order); `from` > 0 only when risky
+        // top_hits sorted by numeric fields (ties: index order)
         let n = 1 + rng.below(2);
         let sort: Vec<Value> = (0..n).map(|_| json!({"field": pick_num_field(rng), "order": *rng.pick(&["asc", "desc"])})).collect();
-        let from = if risky && rng.chance(1, 2) { 1 + rng.below(2) } else { 0 };
+        let from = if rng.chance(1, 2) { 1 + rng.below(3) } else { 0 };
         json!({"type": "top_hits", "size": rng.below(4), "from": from, "sort": sort})
       }
     };
   }
-  match rng.below(if risky { 10 } else { 9 }) {
+  match rng.below(10) {
     7 => {
       // date_histogram over the date field
       let mut a = json!({"type": "date_histogram", "field": "t1"});
@@ -340,7 +341,7 @@ pub fn gen_agg(rng: &mut Rng, depth: usize, risky: bool) -> Value {
       if rng.chance(1, 3) {
         a["min_doc_count"] = json!(rng.below(2));
       }
-      if risky && rng.chance(1, 3) && !(fill_risk && calendar && bounds <= 1) {
+      if rng.chance(1, 3) && !(fill_risk && calendar && bounds <= 1) {
         a["min_doc_count"] = json!(2);
       }
       with_subs(rng, a, depth, risky)
@@ -381,7 +382,7 @@ pub fn gen_agg(rng: &mut Rng, depth: usize, risky: bool) -> Value {
       if rng.chance(1, 4) {
         a["min_doc_count"] = json!(rng.below(2)); // 0 or 1: harmless
       }
-      if risky && rng.chance(1, 3) {
+      if rng.chance(1, 2) {
         if rng.chance(1, 2) {
           a["min_doc_count"] = json!(2 + rng.below(2));
         } else {
@@ -443,7 +444,7 @@ pub fn gen_agg(rng: &mut Rng, depth: usize, risky: bool) -> Value {
       if rng.chance(1, 4) {
         a["min_doc_count"] = json!(rng.below(2));
       }
-      if risky && rng.chance(1, 4) {
+      if rng.chance(1, 3) {
         a["min_doc_count"] = json!(2 + rng.below(2));
       }
       with_subs(rng, a, depth, risky)
@@ -459,8 +460,7 @@ pub fn gen_agg(rng: &mut Rng, depth: usize, risky: bool) -> Value {
         if rng.chance(1, 2) {
           sources.push(json!({"type": "terms", "name": format!("c{i}"), "field": pick_kw_field(rng)}));
         } else {
-          // histogram sources over i64 columns yield no buckets (known finding): only when risky
-          let f = if risky && rng.chance(1, 3) { *rng.pick(&["i1", "i2"]) } else { *rng.pick(&F64_FIELDS) };
+          let f = pick_num_field(rng);
           sources.push(json!({"type": "histogram", "name": format!("c{i}"), "field": f, "interval": *rng.pick(&[0.5, 1.0, 2.5, 5.0])}));
         }
       }
@@ -1480,11 +1480,11 @@ fn candidate_sigs(node: &Value) -> Vec<&'static str> {
     "rare_terms" => out.push("aggs.threshold-per-segment.rare_terms"),
     "histogram" if node.get("min_doc_count").and_then(|m| m.as_u64()).unwrap_or(0) >= 2 => out.push("aggs.threshold-per-segment.histogram"),
     "date_histogram" => {
-      if is_quarter(node) {
-        out.push("date_histogram.quarter-day31");
-      }
       if fill_quirk(node) {
         out.push("date_histogram.calendar-offset-fill");
+      }
+      if is_quarter(node) {
+        out.push("date_histogram.quarter-day31");
       }
       if node.get("min_doc_count").and_then(|m| m.as_u64()).unwrap_or(0) >= 2 {
         out.push("aggs.threshold-per-segment.date_histogram");
@@ -1525,6 +1525,24 @@ fn sees_may31(node: &Value, docs: &[Doc]) -> bool {
     let (_, m, d) = civil_from_days((v - off).div_euclid(86_400_000));
     m == 5 && d == 31
   })
+}
+
+/// all instances (one per parent bucket) of the node at `path` in a view
+fn instances_at(view: &Value, path: &[String]) -> Vec<Value> {
+  let mut cur: Vec<Value> = vec![view.clone()];
+  for p in &path[1..] {
+    cur = cur.iter().flat_map(|c| c["buckets"].as_array().cloned().unwrap_or_default()).filter_map(|b| b["subs"].get(p).cloned()).collect();
+  }
+  cur
+}
+
+/// the two views agree on the buckets that hold documents, at every instance of the node
+fn same_nonempty_buckets(a: &Value, b: &Value, path: &[String]) -> bool {
+  let (ia, ib) = (instances_at(a, path), instances_at(b, path));
+  let shape = |v: &Value| -> Vec<Value> {
+    v["buckets"].as_array().cloned().unwrap_or_default().iter().filter(|x| x["count"].as_u64().unwrap_or(0) > 0).map(|x| json!([x["key"], x["count"]])).collect()
+  };
+  ia.len() == ib.len() && ia.iter().zip(ib.iter()).all(|(x, y)| values_close(&json!(shape(x)), &json!(shape(y))))
 }
 
 /// calendar interval + offset + (extended or hard) bounds
@@ -1588,8 +1606,7 @@ impl Prop for C12 {
     } else {
       json!({"type": "term", "field": pick_kw_field(rng), "value": *rng.pick(&KW_VALUES[..3])})
     };
-    // two thirds of the cases stay away from the parameters of the known findings so that the
-    // bulk of the run checks everything else
+    // two thirds of the cases stay away from the request class of the open finding
     let risky = i % 3 == 2;
     let mut aggs = Map::new();
     for a in 0..(1 + rng.below(2)) {
@@ -1772,11 +1789,13 @@ impl Prop for C12 {
           let single_ok = built.iter().zip(readers.iter()).filter(|(b, _)| b.segs.len() == 1).all(|(_, r)| impl_views(r, query, &only_this).map(|(v, _)| path_ok(&mt(&v, &only_this), &want_o)).unwrap_or(false));
           let relaxed_ok = readers.iter().all(|r| impl_views(r, query, &relaxed).map(|(v, _)| path_ok(&mt(&v, &relaxed), &want_r)).unwrap_or(false));
           if cand == "date_histogram.calendar-offset-fill" {
-            // independent of the layout: without the offset every layout is right
-            relaxed_ok
+            // independent of the layout: without the offset every layout is right, and only
+            // buckets without documents differ
+            relaxed_ok && same_nonempty_buckets(&g, &w, &d.path)
           } else if cand == "date_histogram.quarter-day31" {
             // independent of the layout: a 31st of May is involved, and by month all is right
-            relaxed_ok && sees_may31(&node, &docs)
+            // (a per-segment threshold would leave the one-segment layout right)
+            relaxed_ok && !single_ok && sees_may31(&node, &docs)
           } else {
             single_ok && relaxed_ok && built[li].segs.len() > 1
           }
